@@ -3,7 +3,7 @@ import copy
 import json
 
 from .. import tdgen
-from ..gen import both, lib_case, rand_bytes
+from ..gen import both, lib_case, rand_bytes, VOCAB_TYPES, VOCAB_TYPE_WORDS
 from ..ref import eip712, td
 from ..run.core import V
 
@@ -161,9 +161,12 @@ def gen(shard, rng, tier):
             nd = pick(lambda t, nd: t[0] == "bytesN" and nd[3] is not None)
             if nd:
                 n = eip712.parse_type(nd[1])[1]
-                m = rng.choice([n - 1, n + 1, n + 1, 0, 33, 64] if n > 1 else [n + 1, 0, 33])
+                m = rng.choice([n - 1, n + 1, n + 1, 0, 33, 64, 32, 32] if n > 1 else [n + 1, 0, 33, 32])
                 m = m if m != n else n + 1
-                put(nd, '"0x%s"' % rand_bytes(rng, m).hex())
+                val = rand_bytes(rng, m)
+                if m > n and rng.random() < 0.6:
+                    val = val[:n] + bytes(m - n)  # the right value followed by zero padding (a full word, or one byte too many)
+                put(nd, '"0x%s"' % val.hex())
                 fault, shown = ("bytesN-short" if m < n else "bytesN-long"), "%s with %d bytes" % (nd[1], m)
         elif kind == "bytes":
             nd = pick(lambda t, nd: t[0] in ("bytes", "bytesN") and nd[3] is not None)
@@ -238,7 +241,8 @@ def gen(shard, rng, tier):
                     types = copy.deepcopy(types)
                     mn, ts = types[n][i]
                     ref = eip712.struct_ref(ts)
-                    newname = rng.choice([ref + "Undefined", "uint", "int", "uint" if "uint" not in types else "fixed", "byte", "bytes0", "uint264", "Uint256", "bool "])
+                    newname = rng.choice([ref + "Undefined", "uint", "int", "uint" if "uint" not in types else "fixed", "byte", "bytes0", "uint264", "Uint256", "bool ",
+                                          rng.choice(VOCAB_TYPES), rng.choice(["address", "uint256", "string", "bytes32", "bool"]) + " " + rng.choice(VOCAB_TYPE_WORDS)])
                     if newname in types:
                         newname = ref + "Undefined"
                     types[n][i] = (mn, newname + ts[len(ref):] if ts.startswith(ref) else ts.replace(ref, newname, 1))
@@ -252,6 +256,11 @@ def gen(shard, rng, tier):
                          "uint": ["true", "null", "[]", "{}", '""', '"0x"', '"abcz"', "[1]"], "int": ["true", "null", "[]", "{}", '""', '"-"', '"zz"'],
                          "array": ["5", '"[]"', "null", "{}", "true"], "struct": ["5", '"{}"', "null", "[]", "true"]}[t[0]]
                 tok = rng.choice(wrong)
+                if t[0] in ("struct", "array") and rng.random() < 0.5:
+                    # the right value, but as a JSON *string* holding its JSON text
+                    tok = json.dumps(tdgen.render_tree(rng, nd[2]))
+                elif t[0] in ("uint", "int", "bool") and rng.random() < 0.2:
+                    tok = "[%s]" % nd[2] if rng.random() < 0.5 else '{"value":%s}' % nd[2]
                 put(nd, tok)
                 fault, shown = "wrong-kind", "%s = %s at %s" % (nd[1], tok, "/".join(map(str, nd[0])))
         if fault is None:
